@@ -15,6 +15,10 @@ from model.stores import RT, Disk
 from simkit import sched, shims
 
 
+class SinkError(OSError):
+    """What a display's output sink raises once it is broken."""
+
+
 class OpRecord:
     """What one operation did (kept in-process for the oracles)."""
 
@@ -366,6 +370,18 @@ def _run_op(hist, op, idx, *, tape=None, uberjob_kwargs=None, client_wrap=None, 
             return ob
 
         kwargs["progress"] = [html_progress(sink.append), Progress(create_failing)]
+    elif prog == "bundled-sinkfail":
+        # a bundled display whose output sink fails from its k-th page on (closed pipe, unwritable file), for good
+        from uberjob.progress import html_progress
+
+        sink_state = rec.extra.setdefault("sink", dict(n=0))
+
+        def failing_sink(page):
+            sink_state["n"] += 1
+            if sink_state["n"] >= cfg.get("sink_fails_from", 1):
+                raise SinkError(32, "Broken pipe (injected)")
+
+        kwargs["progress"] = html_progress(failing_sink)
     elif prog is None:
         kwargs["progress"] = None
     else:
